@@ -25,17 +25,23 @@ void *vh_calloc(size_t n, size_t sz); void vh_free(void *p);
 #define calloc vh_calloc
 #define free vh_free
 #endif
-/* back-end selection is C13's subject: here the probes are pinned so that the public init picks the generic
-   back end; the vector back ends are driven through their own entry points (in a replay these definitions
+/* back-end selection is C13's subject: here the probes are pinned so that the public init picks the back end
+   under test (VEC); the vector vtable is a native one whose entries bridge to the translated functions (in a replay these definitions
    come first on the link line and take precedence over the library's) */
-int _skinny_has_vec128(void) { return 0; }
-int _skinny_has_vec256(void) { return 0; }
+int _skinny_has_vec128(void) { return VEC >= 128; }      /* the public init then selects the back end under test */
+int _skinny_has_vec256(void) { return VEC >= 256; }
 #if CIPHER == 1
 #include "skinny128-cipher.c"
 #include "skinny128-ctr-internal.h"
 #ifndef REPLAY
-Skinny128CTRVtable_t const _skinny128_ctr_vec128; Skinny128CTRVtable_t const _skinny128_ctr_vec256;   /* native placeholders, never called */
+#if VEC != 128
+Skinny128CTRVtable_t const _skinny128_ctr_vec128;   /* native placeholder, never selected */
 #endif
+#if VEC != 256
+Skinny128CTRVtable_t const _skinny128_ctr_vec256;
+#endif
+#endif
+#define VT_T Skinny128CTRVtable_t
 #include "skinny128-ctr.c"
 #define BLK 16
 #define KS_T Skinny128TweakedKey_t
@@ -50,8 +56,11 @@ Skinny128CTRVtable_t const _skinny128_ctr_vec128; Skinny128CTRVtable_t const _sk
 #include "skinny64-cipher.c"
 #include "skinny64-ctr-internal.h"
 #ifndef REPLAY
+#if VEC != 128
 Skinny64CTRVtable_t const _skinny64_ctr_vec128;
 #endif
+#endif
+#define VT_T Skinny64CTRVtable_t
 #include "skinny64-ctr.c"
 #define BLK 8
 #define KS_T Skinny64TweakedKey_t
@@ -66,8 +75,11 @@ Skinny64CTRVtable_t const _skinny64_ctr_vec128;
 #include "mantis-cipher.c"
 #include "mantis-ctr-internal.h"
 #ifndef REPLAY
+#if VEC != 128
 MantisCTRVtable_t const _mantis_ctr_vec128;
 #endif
+#endif
+#define VT_T MantisCTRVtable_t
 #include "mantis-ctr.c"
 #define BLK 8
 #define KS_T MantisKey_t
@@ -135,6 +147,29 @@ uint32_t VF(set_counter)(uint8_t *ctr, uint8_t *counter, uint32_t size);
 uint32_t VF(encrypt)(uint8_t *out, uint8_t *in, uint64_t size, uint8_t *ctr);
 typedef struct { const void *vtable; void *ctx; } vhandle_t;
 #define V_OFF(c) (*(unsigned *)((c) + V_OFFSET))
+#ifndef REPLAY
+/* the library's vtable symbol for this back end, native, every entry a one-line bridge to the translated function: the real
+   dispatcher (native) then reaches the real vector back end (clang IR) exactly as in the library */
+static int br_init(HANDLE_T *c) { return (int)VF(init)((uint8_t *)c); }
+static void br_cleanup(HANDLE_T *c) { VF(cleanup)((uint8_t *)c); }
+static int br_set_tweak(HANDLE_T *c, const void *t, unsigned n) { return (int)VF(set_tweak)((uint8_t *)c, (uint8_t *)t, n); }
+static int br_set_counter(HANDLE_T *c, const void *t, unsigned n) { return (int)VF(set_counter)((uint8_t *)c, (uint8_t *)t, n); }
+static int br_encrypt(void *o, const void *i, size_t n, HANDLE_T *c) { return (int)VF(encrypt)((uint8_t *)o, (uint8_t *)i, n, (uint8_t *)c); }
+#if CIPHER == 3
+static int br_set_key(HANDLE_T *c, const void *k, unsigned n, unsigned r) { return (int)VF(set_key)((uint8_t *)c, (uint8_t *)k, n, r); }
+MantisCTRVtable_t const _mantis_ctr_vec128 = { br_init, br_cleanup, br_set_key, br_set_tweak, br_set_counter, br_encrypt };
+#else
+static int br_set_key(HANDLE_T *c, const void *k, unsigned n) { return (int)VF(set_key)((uint8_t *)c, (uint8_t *)k, n); }
+static int br_set_tweaked_key(HANDLE_T *c, const void *k, unsigned n) { return (int)VF(set_tweaked_key)((uint8_t *)c, (uint8_t *)k, n); }
+#if CIPHER == 1 && VEC == 128
+Skinny128CTRVtable_t const _skinny128_ctr_vec128 = { br_init, br_cleanup, br_set_key, br_set_tweaked_key, br_set_tweak, br_set_counter, br_encrypt };
+#elif CIPHER == 1
+Skinny128CTRVtable_t const _skinny128_ctr_vec256 = { br_init, br_cleanup, br_set_key, br_set_tweaked_key, br_set_tweak, br_set_counter, br_encrypt };
+#else
+Skinny64CTRVtable_t const _skinny64_ctr_vec128 = { br_init, br_cleanup, br_set_key, br_set_tweaked_key, br_set_tweak, br_set_counter, br_encrypt };
+#endif
+#endif
+#endif
 #endif
 
 /* ------------------------------------------------------------------ abstract view used by the invariants */
